@@ -4,7 +4,7 @@ The central use of the scheduler: generators returned by the library are coopera
 seeded scheduler decides which one advances next, interleaved with direct reads on the same
 handle.  Refinement oracle: every generator yields exactly what it yields when run alone on a
 fresh handle; every direct op equals the stateless model."""
-from .. import gen, lib, ops
+from .. import gen, lib, ops, fmt
 from ..backends import store
 from ..compare import V
 from ..core import Result, digest
@@ -174,7 +174,7 @@ def norm_item(kind, item, w):
                     d = ops.norm(cc[:])
                 except Exception as exc:
                     d = ('exc', type(exc).__name__)
-                out.append((cc._channel.path, int(cc.offset), d))
+                out.append((fmt.quote_path(g.name, cc.name), int(cc.offset), d))
         return sorted(out)
     if kind == 'chan':
         try:
